@@ -61,7 +61,7 @@ def values_part(chk, done):
                     args = []
                     for a, l in zip(arrs, labels):
                         args += [a, l]
-                    r = da.blockwise(lambda *xs: sum(np.asarray(x, dtype="f8") for x in xs), out_ind, *args, dtype="f8")
+                    r = da.blockwise(_aligned_sum(labels, out_ind), out_ind, *args, dtype="f8")
                     got = r.compute(scheduler="sync")
                     blockshapes_ok = all(
                         np.asarray(v).shape == tuple(r.chunks[ax][i] for ax, i in enumerate(key[1:]))
@@ -91,6 +91,26 @@ def values_part(chk, done):
     chk.cov["evaluations"] += n
 
 
+def _aligned_sum(labels, out_ind):
+    """block function: blockwise hands every operand block in the operand's own axis order, so
+    bring each block to the order of out_ind (size-1 for the labels it lacks) before adding"""
+    import numpy as np
+
+    def f(*xs):
+        total = 0
+        for x, l in zip(xs, labels):
+            x = np.asarray(x, dtype="f8")
+            perm = sorted(range(len(l)), key=lambda i: l[i])
+            xt = np.transpose(x, perm)
+            sh = [1] * len(out_ind)
+            for i, lab in enumerate(sorted(l)):
+                sh[out_ind.index(lab)] = xt.shape[i]
+            total = total + xt.reshape(sh)
+        return total
+
+    return f
+
+
 def _flat(keys):
     out = []
 
@@ -111,3 +131,9 @@ def _flat_blocks(r):
     keys = _flat(r.__dask_keys__())
     g = r.__dask_graph__()
     return dask.get(dict(g), keys)
+
+
+def replay(chk, path):
+    from ._plan import replay_case
+
+    return replay_case(chk, path)
